@@ -311,7 +311,7 @@ func trunc(b []byte, n int) []byte {
 func scenarios(thorough bool) []runner.Scenario {
 	p, e, sh := 2, 1, 4
 	if thorough {
-		p, e, sh = 3, 2, 16
+		p, e, sh = 3, 1, 16
 	}
 	limitOn := func() { rate.LimitChoice = true }
 	return []runner.Scenario{
@@ -336,7 +336,7 @@ func main() {
 	rep.Assumptions = []string{"sequentially consistent memory", "the handshake (DESCRIBE, SETUP, SETUP, PLAY) runs under the default schedule; only the playing phase is explored"}
 	runner.FineP = 1 // statement-level points in the files of fine.txt
 	if rep.Thorough() {
-		runner.FineP = 1
+		runner.FineP = 2
 	}
 	runner.Run(rep, scenarios(rep.Thorough()))
 	rep.Finish()
